@@ -41,7 +41,7 @@ def check(run):
         emit(run, "C01.R4", f, sched.conservation_facts(run, f, "recur"))
         f = ix.method(cls, "remove")
         emit(run, "C01.R4", f, sched.conservation_facts(run, f, "remove"))
-    run.floor("C01.R4", 14)
+    run.floor("C01.R4", 8)
 
 
 MUTANTS = [
